@@ -158,6 +158,7 @@ def run_cases(prop, tier, names, lengths, timeout):
             spec['playback'] = True
             r2 = kani_runner.run_harness(spec, os.path.join(d, 'target'))
             r['playback'] = r2.get('playback')
+            r['playbacks'] = r2.get('playbacks') or []
         if n == min(all_lengths[nm]) and r['verdict'] == 'pass':
             tw = kani_runner.run_harness({'name': 'e1_twin_n%d_must_fail' % n, 'crate': d, 'timeout': timeout, 'expect': 'fail',
                                           'mem_gb': 24}, os.path.join(d, 'target'))
@@ -261,13 +262,25 @@ def run_e1(prop, tier, names, lengths, R: Result, timeout):
                                 'covers': '%s/%s' % (r.get('covers_sat'), r.get('covers'))})
         elif r['verdict'] == 'violation':
             own, other, untagged = attribute(prop, r['failures'])
-            pb = parse_playback(r.get('playback'), r['n'])
+            # Kani prints one concrete test per failing assertion and per satisfied cover: try them all natively
+            pb = None
             confirmed = None
             detail = ''
+            for blk in (r.get('playbacks') or [r.get('playback')]):
+                cand = parse_playback(blk, r['n'])
+                if not cand:
+                    continue
+                outs = {prof: native_run(P, r['n'], cand[0], cand[1], prof) for prof in ('dev', 'release')}
+                bad = any(o.get('hang') or o.get('rc') != 0 for o in outs.values())
+                if pb is None or bad:
+                    pb = cand
+                    confirmed = bad
+                    pb_outs = outs
+                if bad:
+                    break
             if pb:
                 kinds, vals = pb
-                outs = {prof: native_run(P, r['n'], kinds, vals, prof) for prof in ('dev', 'release')}
-                confirmed = any(o.get('hang') or o.get('rc') != 0 for o in outs.values())
+                outs = pb_outs
                 detail = 'kinds=%s vals=%s native=%s' % (kinds, vals, {k: (v.get('panic') or v.get('outcome') or v) for k, v in outs.items()})
                 # attribute untagged failures by the oracle's classification of the concrete input
                 if untagged and not own:
@@ -391,7 +404,9 @@ def run_reduce_steps(prop, tier, names, R: Result, timeout=900):
         r = kani_runner.run_harness(spec, os.path.join(d, 'target'))
         if r['verdict'] == 'violation':
             spec['playback'] = True
-            r['playback'] = kani_runner.run_harness(spec, os.path.join(d, 'target')).get('playback')
+            r2 = kani_runner.run_harness(spec, os.path.join(d, 'target'))
+            r['playback'] = r2.get('playback')
+            r['playbacks'] = r2.get('playbacks') or []
         shutil.rmtree(os.path.join(d, 'target'), ignore_errors=True)
         r['grammar'], r['rule'], r['m'] = P.name, m['rule'], m
         log('[e1-step] %-20s r%-2d %-12s %5.1fs %s' % (P.name, m['rule'], r['verdict'], r['wall'], r.get('why', '')[:120]))
@@ -412,15 +427,19 @@ def run_reduce_steps(prop, tier, names, R: Result, timeout=900):
             own, other, untagged = attribute(prop, r['failures'])
             rel = own or untagged
             vals = None
-            if r.get('playback'):
-                vecs = re.findall(r'vec!\[([0-9,\s]*)\]', r['playback'])
-                vals = [int(x) for v in vecs for x in v.replace(' ', '').split(',') if x != '']
             confirmed = None
             nat = ''
-            if vals is not None:
-                rc, out = common.sh([P.native_step, str(r['rule']), ','.join(map(str, vals))], timeout=20)
-                confirmed = rc != 0 or 'STEP OK' not in out
-                nat = out[-200:].strip()
+            for blk in (r.get('playbacks') or [r.get('playback')]):
+                if not blk:
+                    continue
+                vecs = re.findall(r'vec!\[([0-9,\s]*)\]', blk)
+                cand = [int(x) for v in vecs for x in v.replace(' ', '').split(',') if x != '']
+                rc, out = common.sh([P.native_step, str(r['rule']), ','.join(map(str, cand))], timeout=20)
+                bad = rc != 0 or 'STEP OK' not in out
+                if vals is None or bad:
+                    vals, confirmed, nat = cand, bad, out[-200:].strip()
+                if bad:
+                    break
             desc = 'reduce step %s (%s): %s; vals=%s native: %s' % (key, P.g.bnf()[r['rule']], '; '.join(f['description'] for f in (rel or r['failures'])[:3]), vals, nat)
             if not rel:
                 R.inconclusive.append('E1-step %s: only other properties\' assertions failed (%s)' % (key, '; '.join(f['description'] for f in other[:2])))
